@@ -306,7 +306,8 @@ theorem pointBound_spec (s : Nat) (b : UBound) (l : List XVal) (h : pointBound s
   | scalar v =>
     simp only [pointBound, Option.some.injEq] at h
     subst h
-    simp only [pointBoundAt]
+    have hfun : pointBoundAt (.scalar v) = fun _ => v := by funext r; rfl
+    rw [hfun]
     split
     · exact (range_map_const s v).symm
     · have : s = 1 := by omega
@@ -321,7 +322,9 @@ theorem pointBound_spec (s : Nat) (b : UBound) (l : List XVal) (h : pointBound s
       · rename_i h1
         simp only [Option.some.injEq] at h
         subst h
-        simp only [pointBoundAt, h1, if_true]
+        have hfun : pointBoundAt (.vec vs) = fun _ => vs.getD 0 .nan := by
+          funext r; simp [pointBoundAt, h1]
+        rw [hfun]
         exact (range_map_const s _).symm
       · rename_i h1
         split at h
@@ -329,7 +332,7 @@ theorem pointBound_spec (s : Nat) (b : UBound) (l : List XVal) (h : pointBound s
         · rename_i hlen
           simp only [Option.some.injEq] at h
           subst h
-          have hlen' : l.length = s := by simpa using hlen
+          have hlen' : vs.length = s := by simpa using hlen
           apply List.ext_getElem
           · simp [hlen']
           · intro r h1' h2'
@@ -337,13 +340,13 @@ theorem pointBound_spec (s : Nat) (b : UBound) (l : List XVal) (h : pointBound s
     · rename_i hs1
       simp only [Option.some.injEq] at h
       subst h
-      have h1 : l.length = 1 := by
+      have h1 : vs.length = 1 := by
         rcases hok with hok | hok
         · omega
         · exact hok
       have : s = 1 := by omega
       subst this
-      match l, h1 with
+      match vs, h1 with
       | [v], _ => simp [pointBoundAt]
   | ts1 _ _ => simp [UBound.pointOk] at hok
   | ts2 _ _ => simp [UBound.pointOk] at hok
@@ -392,12 +395,16 @@ theorem flatMap_range_getD {α : Type} (f : Nat → List α) (r : Nat) (d : α) 
         rw [hl]; calc j * r + i < j * r + r := by omega
           _ = (j + 1) * r := by ring
           _ ≤ k * r := Nat.mul_le_mul_right r hjk
-      rw [List.getD_append _ _ _ _ hlt]
-      exact ih j i hjk hi
+      rw [show ∀ (l1 l2 : List α) (n : Nat), n < l1.length → (l1 ++ l2).getD n d = l1.getD n d from
+        fun l1 l2 n h => by simp [List.getD_eq_getElem?_getD, List.getElem?_append_left h]]
+      · exact ih j i hjk hi
+      · exact hlt
     · have hjeq : j = k := by omega
       subst hjeq
       have hge : ((List.range j).flatMap f).length ≤ j * r + i := by rw [hl]; omega
-      rw [List.getD_append_right _ _ _ _ hge, hl]
-      simp
+      rw [show ∀ (l1 l2 : List α) (n : Nat), l1.length ≤ n → (l1 ++ l2).getD n d = l2.getD (n - l1.length) d from
+        fun l1 l2 n h => by simp [List.getD_eq_getElem?_getD, List.getElem?_append_right h]]
+      · rw [hl]; simp
+      · exact hge
 
 end RtcVerif.C06
